@@ -301,7 +301,26 @@ func CheckUserInput(conf Root) error {
 				err = fmt.Errorf("%q %w", val, err)
 			}
 		}
+		// an index entry is a column name optionally
+		// followed by a sort direction
+		checkIndexCol = func(name, val string) {
+			switch {
+			case strings.HasSuffix(val, " asc"):
+				val = strings.TrimSuffix(val, " asc")
+			case strings.HasSuffix(val, " desc"):
+				val = strings.TrimSuffix(val, " desc")
+			}
+			check(name, val)
+		}
+		checkInputs func([]dig.Input)
 	)
+	checkInputs = func(inputs []dig.Input) {
+		for _, inp := range inputs {
+			check("referenced table name", inp.Filter.Ref.Table)
+			check("referenced column name", inp.Filter.Ref.Column)
+			checkInputs(inp.Components)
+		}
+	}
 	for _, ig := range conf.Integrations {
 		check("integration name", ig.Name)
 		check("table name", ig.Table.Name)
@@ -309,13 +328,22 @@ func CheckUserInput(conf Root) error {
 			check("column name", c.Name)
 			check("column type", c.Type)
 		}
+		for _, cols := range ig.Table.Unique {
+			for _, name := range cols {
+				check("unique column name", name)
+			}
+		}
+		for _, cols := range ig.Table.Index {
+			for _, name := range cols {
+				checkIndexCol("index column name", name)
+			}
+		}
 		for _, name := range ig.Notification.Columns {
 			check("notification column name", name)
 		}
-		for _, inp := range ig.Event.Inputs {
-			check("referenced column name", inp.Filter.Ref.Column)
-		}
+		checkInputs(ig.Event.Inputs)
 		for _, bd := range ig.Block {
+			check("referenced table name", bd.Filter.Ref.Table)
 			check("referenced column name", bd.Filter.Ref.Column)
 		}
 	}
